@@ -152,6 +152,9 @@ func VerifyFunc(p *Program, fn *ssa.Function, cfg Config, opt Options) (res *Uni
 		res.SolverS = u.S.Time.Seconds()
 		res.Inputs = u.inputs
 		res.NAssume = u.NAssumeCalls
+		if len(u.S.Errors) > 0 {
+			res.Limits = append(res.Limits, "engine panic: solver rejected a query: "+u.S.Errors[0])
+		}
 	}()
 	u.alloc0 = u.newInt("alloc0")
 	u.assume(Gt(u.alloc0, IntLit(0)))
